@@ -148,7 +148,7 @@ def drive(ctx):
             ctx.emit("iv_len", {"entry": D_ENTRIES[k % len(D_ENTRIES)]},
                      [{"k": "date", "w": w1[:3], "cls": "Date"}, {"k": "date", "w": w2[:3], "cls": "Date"}])
         elif m == 1:
-            ctx.emit("iv_len", {"entry": ENTRIES[k % 7]}, [mk_dt(NAIVE, w1, 0), mk_dt(NAIVE, w2, k % 2)])
+            ctx.emit("iv_len", {"entry": ENTRIES[k % 9]}, [mk_dt(NAIVE, w1, 0), mk_dt(NAIVE, w2, k % 2)])
         elif m == 2:
             ctx.emit("iv_len", {"entry": ENTRIES[k % len(ENTRIES)]},
                      [mk_dt({"n": rnd.choice(pool), "fo": 0}, w1, 0), mk_dt({"n": rnd.choice(pool), "fo": 0}, w2, 1)])
